@@ -622,7 +622,9 @@ def resolve_shm_batch(
     assert custom_metadata is not None  # guaranteed by is_shm_pointer_batch
     offset_bytes = custom_metadata.get(SHM_OFFSET_KEY)
     length_bytes = custom_metadata.get(SHM_LENGTH_KEY)
-    assert offset_bytes is not None and length_bytes is not None  # guaranteed by is_shm_pointer_batch
+    assert offset_bytes is not None  # guaranteed by is_shm_pointer_batch
+    if length_bytes is None:
+        raise ValueError(f"SHM pointer batch carries {SHM_OFFSET_KEY.decode()} but no {SHM_LENGTH_KEY.decode()}")
     offset = int(offset_bytes)
     length = int(length_bytes)
 
